@@ -11,7 +11,15 @@ EXTENDS Strings, TLC, Json
 
 CONSTANTS Alpha, MaxLen
 VARIABLE body
-Init == body = <<>>
+(* complete multi-symbol escapes are out of reach of MaxLen: they are seeded, each alone and between quote / *)
+(* backslash / unnecessary-escape neighbours                                                                   *)
+LongEscapes == { <<"BS", "u", "LB", "a", "1", "RB">>,            \* \u{a1}  (two bytes)
+                 <<"BS", "u", "LB", "1", "0", "0", "0", "0", "RB">>,   \* \u{10000} (four bytes)
+                 <<"BS", "x", "1", "a">>, <<"BS", "0", "1", "9">>, <<"BS", "1", "9", "9">>,
+                 <<"BS", "z", "SP", "SP">> }
+Around == {<<>>, <<"SQ">>, <<"DQ">>, <<"DQ", "DQ">>, <<"BS", "BS">>, <<"BS", "q">>, <<"q">>}
+EscBodies == {a \o e \o b : a \in Around, e \in LongEscapes, b \in Around}
+Init == body \in {<<>>} \cup EscBodies
 AppendSym == Len(body) < MaxLen /\ \E c \in Alpha : body' = Append(body, c)
 Spec == Init /\ [][AppendSym]_body
 
